@@ -11,6 +11,8 @@ From Coq Require Import List NArith.
 From Goit Require Import Bytes World Repo MonadFacts.
 From Goit Require Import Inv ConnectedFacts.
 From Goit Require Import Bridge.
+From Goit Require Import Refs BranchFacts SnapshotFacts.
+From Goit Require HeadFacts ConfigCmdFacts JournalFacts ChainFacts TreeUniqueFacts FaultReachFacts CrashBranchFacts.
 Import ListNotations.
 
 (* T0 (tie to the source): every regexp literal of the current Go source denotes
@@ -71,3 +73,59 @@ Print Assumptions C15_crash_state_is_a_prefix.
 Print Assumptions C15_crash_safe.
 Print Assumptions C15_rename_window_closed.
 Print Assumptions C15_source_patterns_are_the_models.
+
+(* "Each branch points either to the commit it named before the interrupted command or to the
+   commit the command was about to install, never to anything else": for every command, on EVERY
+   world, at every crash point k, every branch name (absent counts as a value: deletion is covered),
+   and likewise for HEAD *)
+Theorem C15_branch_old_or_new : forall e c w r w' tr k n,
+  run_m (run_cmd e c) w = (r, w', tr) ->
+  am_get (w_refs (apply_effects (firstn k tr) w)) n = am_get (w_refs w) n \/
+  am_get (w_refs (apply_effects (firstn k tr) w)) n = am_get (w_refs w') n.
+Proof. exact CrashBranchFacts.branch_prefix_old_or_new. Qed.
+
+Theorem C15_head_old_or_new : forall e c w r w' tr k,
+  run_m (run_cmd e c) w = (r, w', tr) ->
+  w_head (apply_effects (firstn k tr) w) = w_head w \/ w_head (apply_effects (firstn k tr) w) = w_head w'.
+Proof. exact CrashBranchFacts.head_old_or_new. Qed.
+
+(* histories that GO ON after a crash or a failed write.  FReachable: the worlds obtained from the
+   empty one by commands, valid user edits, and commands that stop at their k-th write (which, by
+   C16_failure_is_reported, are exactly the crash-prefix states).  A crash state of a command run in
+   such a world is again such a world, and in all of them the invariants of the fault-free histories
+   hold: names valid, configuration well formed, refs sorted, journal invariant; and, unless a
+   collision was flagged or an object exceeds 2^63 bytes, the repository is connected (C03), the
+   staging area and every stored snapshot are well formed and read back, written trees have unique
+   names, and every id in the journal is a stored commit.  So every "on every reachable repository"
+   theorem's invariants are available after an interrupted command too *)
+Theorem C15_crash_states_stay_in_the_closure : forall e c w r w' tr k,
+  FaultReachFacts.FReachable w -> run_m (run_cmd e c) w = (r, w', tr) ->
+  FaultReachFacts.FReachable (apply_effects (firstn k tr) w).
+Proof. exact FaultReachFacts.freachable_crash. Qed.
+
+Theorem C15_reachable_is_in_the_closure : forall w, Reachable w -> FaultReachFacts.FReachable w.
+Proof. exact FaultReachFacts.reachable_freachable. Qed.
+
+Theorem C15_invariants_after_crashes_and_faults : forall w, FaultReachFacts.FReachable w ->
+  HeadFacts.NamesValid w /\
+  ConfigCmdFacts.WfCfg w /\
+  refs_sorted w /\
+  JournalFacts.JInv w /\
+  ConnectedFacts.CInv w /\ SnapshotFacts.Inv w /\ TreeUniqueFacts.UInv w /\ ChainFacts.CInv w /\
+  (w_coll w = false -> ChainFacts.ChainGood w) /\
+  (w_coll w = false -> SnapshotFacts.SmallStore (w_objs w) ->
+     Connected w /\ WtValid w /\ IndexGood w /\ SnapshotsGood (w_objs w) /\
+     TreeUniqueFacts.SnapshotsUnique (w_objs w) /\ HlogGood w).
+Proof. exact FaultReachFacts.freachable_invariants. Qed.
+
+(* non-vacuity: a world reached only through a failure (a commit stopped after its objects were
+   written: not reachable without one) *)
+Theorem C15_closure_is_strictly_larger :
+  Reachable FaultReachFacts.fx_w0 /\ FaultReachFacts.FReachable FaultReachFacts.fx_w /\ ~ Reachable FaultReachFacts.fx_w.
+Proof. exact FaultReachFacts.fx_only_through_fault. Qed.
+Print Assumptions C15_branch_old_or_new.
+Print Assumptions C15_head_old_or_new.
+Print Assumptions C15_crash_states_stay_in_the_closure.
+Print Assumptions C15_reachable_is_in_the_closure.
+Print Assumptions C15_invariants_after_crashes_and_faults.
+Print Assumptions C15_closure_is_strictly_larger.
